@@ -459,7 +459,8 @@ type lmFrame struct {
 	depth  int
 	// loader frames: the local node being filled and returned; only returns
 	// that hand out that node count as success returns of the frame.
-	seed *ssa.Alloc
+	// (or the node a decoder helper built and returned: `node, err := m.decodeNode(b, l)`)
+	seed ssa.Value
 }
 
 // counts: does return r count as a success return of frame f?
@@ -467,7 +468,7 @@ func (f *lmFrame) counts(r *ssa.Return) bool {
 	if f.seed == nil {
 		return true
 	}
-	return len(r.Results) > 0 && ir.ResolveCell(ir.Strip(r.Results[0])) == ssa.Value(f.seed)
+	return len(r.Results) > 0 && ir.ResolveCell(ir.Strip(r.Results[0])) == f.seed
 }
 
 type lmKey struct {
@@ -591,7 +592,7 @@ func (an *lmAn) cl0(v ssa.Value, fr *lmFrame) *lmVal {
 			return e
 		}
 	case *ssa.Alloc:
-		if fr.seed != nil && x == fr.seed {
+		if fr.seed != nil && ssa.Value(x) == fr.seed {
 			return &lmVal{k: lmNode}
 		}
 	case *ssa.Const:
@@ -645,6 +646,9 @@ func (an *lmAn) cl0(v ssa.Value, fr *lmFrame) *lmVal {
 			}
 		}
 	case *ssa.Extract:
+		if fr.seed != nil && ssa.Value(x) == fr.seed {
+			return &lmVal{k: lmNode}
+		}
 		call, ok := x.Tuple.(*ssa.Call)
 		if !ok {
 			return lmUnk
@@ -2193,9 +2197,55 @@ func (an *lmAn) loaderOf(nc *ssa.Call) *lmLoader {
 				continue
 			}
 			pos := an.c.P.InstrPos(r)
-			switch x := r0.(type) {
-			case *ssa.Alloc:
-				fr := &lmFrame{fn: g, env: map[*ssa.Parameter]*lmVal{g.Params[lpMastParam(g)]: {k: lmMast}}, seed: x}
+			// the decoding or the cache lookup extracted into a private helper that is not itself a loader
+			// (`node, err := m.decodeNode(b, l)`, `node, ok := m.cachedNode(key)`): a helper that hands out a node
+			// variable of its own that it filled makes its result the node being loaded; a helper that hands out
+			// only type-asserted values is judged like the assertion itself
+			var seed ssa.Value
+			if ex, isEx := r0.(*ssa.Extract); isEx && ex.Index == 0 {
+				if t, isCall := ex.Tuple.(*ssa.Call); isCall {
+					if h := ir.Callee(t.Call); h != nil && h.Blocks != nil && isOwn(an.c.P, h) && !lmLoadLike(an.c, h) && isNodePtr(ex.Type()) {
+						var asserts []*ssa.TypeAssert
+						locals, other := 0, 0
+						for _, hr := range ir.Returns(h) {
+							if len(hr.Results) == 0 {
+								other++
+								continue
+							}
+							h0 := ir.ResolveCell(ir.Strip(hr.Results[0]))
+							if ir.IsNilConst(h0) {
+								continue
+							}
+							switch y := h0.(type) {
+							case *ssa.Alloc:
+								if y.Parent() == h {
+									locals++
+								} else {
+									other++
+								}
+							case *ssa.TypeAssert:
+								asserts = append(asserts, y)
+							default:
+								other++
+							}
+						}
+						switch {
+						case other == 0 && locals > 0 && len(asserts) == 0:
+							seed = ex
+						case other == 0 && locals == 0 && len(asserts) > 0:
+							for _, ta := range asserts {
+								L.assertSource(an, ta, pos)
+							}
+							continue
+						}
+					}
+				}
+			}
+			if al, isAl := r0.(*ssa.Alloc); isAl {
+				seed = al
+			}
+			if seed != nil {
+				fr := &lmFrame{fn: g, env: map[*ssa.Parameter]*lmVal{g.Params[lpMastParam(g)]: {k: lmMast}}, seed: seed}
 				sub := &lmAn{c: an.c, memo: map[lmKey]*lmVal{}, loops: map[lmKey]*lmLoop{}, near: map[int][]string{}, nearUnd: map[int][]string{}, nearPos: map[int]string{}}
 				sub.walk(fr)
 				L.seeded++
@@ -2219,6 +2269,9 @@ func (an *lmAn) loaderOf(nc *ssa.Call) *lmLoader {
 						L.und[cd.clause] = append(L.und[cd.clause], cd.atom)
 					}
 				}
+				continue
+			}
+			switch x := r0.(type) {
 			case *ssa.Extract:
 				switch t := x.Tuple.(type) {
 				case *ssa.Call:
